@@ -10,6 +10,8 @@ import tempfile
 import time
 from concurrent.futures import ThreadPoolExecutor
 
+if hasattr(sys, "set_int_max_str_digits"):
+    sys.set_int_max_str_digits(0)      # exact rationals can have thousands of digits
 HERE = os.path.dirname(os.path.abspath(__file__))
 ROOT = os.path.dirname(HERE)
 EXIT_OK, EXIT_VIOLATION, EXIT_HARNESS = 0, 1, 2
